@@ -32,6 +32,8 @@ type Result struct {
 	File    string
 	Logic   string
 	Pre     *Result // cover obligations after a call: the same query for the state before the call
+	CandFile  string // lemma obligations: the same query without quantified facts (a model of it is only a candidate)
+	Candidate bool   // Model comes from CandFile: believed only if it replays on the real code
 }
 
 type solverCfg struct {
@@ -189,6 +191,29 @@ func prepare(c *Ctx, o *Obligation, workDir string) *Result {
 	file := filepath.Join(workDir, sanitize(o.Name)+".smt2")
 	os.WriteFile(file, []byte(sb.String()), 0o644)
 	res := &Result{Obl: o, File: file, Bytes: sb.Len(), Logic: logic, Status: Unknown}
+	if !o.Cover && o.Kind == "lemma" && len(o.ModelTerms) > 0 && q {
+		// Quantified facts make the solvers answer "unknown" instead of "sat" when the lemma is
+		// false. A second script without them is satisfiable more often than the real one; its
+		// model is a candidate input that counts only if it fails on the real code (replay).
+		c.SkipQuantAxioms = true
+		cas := []*Term{c.StripQuant(o.Assume), c.StripQuant(c.NegSkolem(o.Goal))}
+		cscript := c.Script("ALL", cas, nil)
+		c.SkipQuantAxioms = false
+		var cb strings.Builder
+		cb.WriteString("(set-option :produce-models true)\n")
+		cb.WriteString(cscript)
+		var names []string
+		for _, nt := range o.ModelTerms {
+			if nt.T.Op == "const" && strings.Contains(cscript, "(declare-fun "+smtSym(nt.T.Name)+" ") {
+				names = append(names, smtSym(nt.T.Name))
+			}
+		}
+		if len(names) > 0 {
+			fmt.Fprintf(&cb, "(get-value (%s))\n", strings.Join(names, " "))
+			res.CandFile = filepath.Join(workDir, sanitize(o.Name)+".cand.smt2")
+			os.WriteFile(res.CandFile, []byte(cb.String()), 0o644)
+		}
+	}
 	if o.Cover && o.PreCover != nil {
 		po := &Obligation{Name: o.Name + ".before", Kind: "cover", Func: o.Func, Pos: o.Pos, Assume: o.PreCover, Goal: c.True(), Cover: true, Text: o.Text, Unit: o.Unit}
 		res.Pre = prepare(c, po, workDir)
@@ -199,6 +224,18 @@ func prepare(c *Ctx, o *Obligation, workDir string) *Result {
 // runSolvers discharges a prepared obligation with the solver portfolio.
 func runSolvers(res *Result, timeoutS int) *Result {
 	runSolvers1(res, timeoutS)
+	if res.Status == Unknown && res.CandFile != "" {
+		cmd := exec.Command("sh", "-c", "ulimit -t 15; exec z3-new -T:120 \"$1\"", "sh", res.CandFile)
+		var buf bytes.Buffer
+		cmd.Stdout = &buf
+		cmd.Run()
+		out := buf.String()
+		if strings.HasPrefix(strings.TrimSpace(out), "sat") {
+			res.Model = parseModel(out)
+			res.Candidate = true
+			res.Output += "\ncandidate input from the query without quantified facts (z3 5.1.0): " + firstLine(strings.TrimPrefix(strings.TrimSpace(out), "sat"))
+		}
+	}
 	if res.Obl.Cover && res.Status != Proved && res.Pre != nil {
 		// the state after the call is not satisfiable: a dead path if the state before was not either
 		runSolvers1(res.Pre, timeoutS)
